@@ -11,6 +11,7 @@ import JsonV.Lemmas.WireBasic
 import JsonV.Lemmas.WireNumberScan
 import JsonV.Lemmas.WireString
 import JsonV.Lemmas.WireValue
+import JsonV.Lemmas.GlueResume
 import JsonV.Gen.Constants
 import JsonV.Gen.Tables
 
@@ -244,5 +245,53 @@ example : isValid {} [0x5B, 0x31, 0x2C, 0x7B, 0x22, 0x61, 0x22, 0x3A, 0x6E, 0x75
 example : validText {} [0x5B, 0x31, 0x2C, 0x5D] = (3, .invalidChar) := by decide +kernel
 example : validText {} [0x7B, 0x22, 0x61, 0x22, 0x3A, 0x31, 0x2C, 0x22, 0x61, 0x22, 0x3A, 0x32, 0x7D] = (7, .dupName) := by decide +kernel
 example : isValid ⟨false, true⟩ [0x7B, 0x22, 0x61, 0x22, 0x3A, 0x31, 0x2C, 0x22, 0x61, 0x22, 0x3A, 0x32, 0x7D] = true := by decide +kernel
+
+/-! ### Glue with slice C05 (Model/Resume.lean): the two model copies of the scanners are equal -/
+
+section Glue
+open JsonV.Lemmas.GlueResume
+
+/-- `Resume.consumeWhitespace` is `Wire.consumeWhitespace`. -/
+theorem glue_whitespace (b : Bytes) : Model.Resume.consumeWhitespace b = consumeWhitespace b := ws_eq b
+
+/-- `Resume.consumeLiteral` is `Wire.consumeLiteral` (error enums identified by `eR`). -/
+theorem glue_literal (b lit : Bytes) :
+    ((Model.Resume.consumeLiteral b lit).1, eR (Model.Resume.consumeLiteral b lit).2) = consumeLiteral b lit :=
+  lit_eq b lit
+
+/-- `Resume.consumeNumberResumable` is `Wire.consumeNumberResumable`, for every buffer, resume offset and
+state word: C05's resumability theorems (`num_resume`, `num_stable`, `chunk_indep_num`) are theorems
+about the scanner the grammar theorems above speak about. -/
+theorem glue_number (b : Bytes) (off st : Nat) :
+    mapNum (Model.Resume.consumeNumberResumable b off st) = consumeNumberResumable b off st :=
+  number_resumable_eq b off st
+
+/-- Chunk independence meets the grammar: however the input is cut into chunks `c :: cs`, the decoder's
+refill loop for numbers (`decoderState.consumeNumber`, modelled by C05) answers `(n, nil)` exactly when
+the first `n` bytes of the concatenated input are a number of the grammar that cannot be extended. -/
+theorem number_chunk_indep_grammar (c : Bytes) (cs : List Bytes) (n : Nat) :
+    Model.Resume.consumeNumberChunks c 0 0 cs = (n, .ok) ↔
+      n ≤ (c ++ cs.flatten).length ∧ JNumber ((c ++ cs.flatten).take n) ∧
+        (n = (c ++ cs.flatten).length ∨ ¬ NumPrefix ((c ++ cs.flatten).take (n + 1))) := by
+  rw [JsonV.Model.Resume.num_chunk_indep c cs, ← number_iff]
+  generalize c ++ cs.flatten = b
+  have hg := glue_number b 0 0
+  have hcn : consumeNumber b = ((Model.Resume.consumeNumberResumable b 0 0).1, eR (Model.Resume.consumeNumberResumable b 0 0).2.2) := by
+    simp [consumeNumber, ← hg, mapNum, stInit]
+  rw [hcn]
+  simp only [Model.Resume.consumeNumberChunks]
+  rcases Model.Resume.consumeNumberResumable b 0 0 with ⟨m, st, e⟩
+  cases e <;> simp [eR]
+  all_goals (split <;> simp_all)
+
+end Glue
+
+/-- not yet glued: the string scanner copies (`Resume.consumeStringResumable` vs `consumeStringResumable`). -/
+def glue_string_full : Prop :=
+  ∀ (b : Bytes) (off : Nat) (v : Bool),
+    let r := Model.Resume.consumeStringResumable .none b off v
+    let w := consumeStringResumable b off v
+    r.1 = w.1 ∧ r.2.1.nonVerbatim = w.2.1.nonVerbatim ∧ r.2.1.nonCanonical = w.2.1.nonCanonical ∧
+      JsonV.Lemmas.GlueResume.eR r.2.2 = w.2.2
 
 end JsonV.Props.C01
